@@ -1,4 +1,355 @@
-//! Pure kernels (placeholder: filled in below)
-pub fn generate(_parsed: &[(String, String, syn::File)]) -> Result<(String, serde_json::Value), String> {
-    Ok(("/- GENERATED: no kernels yet -/\n".to_string(), serde_json::json!({})))
+//! Pure kernels: the arms of `impl TestTextSelection for TextSelection :: test` (src/textselection.rs) are translated
+//! to a Lean definition over the mirror types of `StamModel/Rel.lean` (`Op`, `TSel`, `Res`).
+//!
+//! Supported subset (anything else is an error naming the construct):
+//!   patterns   `TextSelectionOperator::V { negate: false, all: true, limit: Some(x), allow_whitespace, .. }`, `|`
+//!   expressions comparisons, `&&`, `||`, `!`, `-`, parentheses, `self.begin/end`, `reftextsel.begin/end`, `*x`, locals,
+//!              integer and boolean literals, `if / else if / else`, a block `{ let x = e; e }`,
+//!              `self == reftextsel` (rendered as equality of the (begin, end) pair: the mirror type has no handle),
+//!              the intrinsic `if let Ok(gap) = resource.text_by_offset(&Offset::simple(a, b)) { gap.chars().all(|c| c.is_whitespace()) } else { false }`
+//!              (rendered as `r.gapWs a b`).
+//! Arms that recurse (`self.test(&operator.toggle_negate(), ..)`) or are `unreachable!` are not translated: the
+//! generated function answers `none` for them and lists the operators the recursive arm names.
+//!
+//! For every subtraction `x - y` the path condition under which it is evaluated (left operands of `&&`, enclosing
+//! `if` conditions, negated for `else`) is emitted as a theorem `… → y ≤ x` proved by `omega`: a dropped guard breaks
+//! a generated obligation.
+use quote::ToTokens;
+use syn::{BinOp, Expr, Pat, Stmt, UnOp};
+
+const VARIANTS: [(&str, &str, usize); 12] = [
+    ("Equals", "equals", 2), ("Overlaps", "overlaps", 2), ("Embeds", "embeds", 2), ("Embedded", "embedded", 3),
+    ("Before", "before", 3), ("After", "after", 3), ("Precedes", "precedes", 3), ("Succeeds", "succeeds", 3),
+    ("SameBegin", "samebegin", 2), ("SameEnd", "sameend", 2), ("InSet", "inset", 2), ("SameRange", "samerange", 2),
+];
+
+fn field_pos(name: &str) -> Option<usize> {
+    match name { "all" => Some(0), "negate" => Some(1), "limit" | "allow_whitespace" => Some(2), _ => None }
+}
+
+struct Ctx { obligations: Vec<(String, String, String)>, binders: Vec<String> }
+
+fn pat_to_lean(p: &Pat, binders: &mut Vec<String>) -> Result<Vec<String>, String> {
+    match p {
+        Pat::Or(o) => { let mut v = vec![]; for c in &o.cases { v.extend(pat_to_lean(c, binders)?); } Ok(v) }
+        Pat::Struct(s) => {
+            let vname = s.path.segments.last().map(|x| x.ident.to_string()).unwrap_or_default();
+            let (_, lname, arity) = VARIANTS.iter().find(|(r, _, _)| *r == vname).ok_or(format!("unknown operator variant {}", vname))?;
+            let mut slots: Vec<String> = vec!["_".to_string(); *arity];
+            for f in &s.fields {
+                let fname = match &f.member { syn::Member::Named(i) => i.to_string(), _ => return Err("tuple field in operator pattern".into()) };
+                let pos = field_pos(&fname).ok_or(format!("unknown operator field {}", fname))?;
+                if pos >= *arity { return Err(format!("field {} not in variant {}", fname, vname)); }
+                slots[pos] = match &*f.pat {
+                    Pat::Lit(l) => match &l.lit { syn::Lit::Bool(b) => b.value.to_string(), other => return Err(format!("literal {} in pattern", other.to_token_stream())) },
+                    Pat::Ident(i) => { let n = i.ident.to_string(); if !binders.contains(&n) { binders.push(n.clone()); } n }
+                    Pat::TupleStruct(ts) if ts.path.is_ident("Some") && ts.elems.len() == 1 => match &ts.elems[0] {
+                        Pat::Ident(i) => { let n = i.ident.to_string(); if !binders.contains(&n) { binders.push(n.clone()); } format!("(some {})", n) }
+                        other => return Err(format!("pattern inside Some: {}", other.to_token_stream())),
+                    },
+                    Pat::Wild(_) => "_".to_string(),
+                    other => return Err(format!("unsupported field pattern {}", other.to_token_stream())),
+                };
+            }
+            Ok(vec![format!(".{} {}", lname, slots.join(" "))])
+        }
+        other => Err(format!("unsupported arm pattern {}", other.to_token_stream())),
+    }
+}
+
+/// numeric / boolean term
+fn term(e: &Expr, path: &Vec<String>, cx: &mut Ctx) -> Result<String, String> {
+    match e {
+        Expr::Paren(p) => Ok(format!("({})", term(&p.expr, path, cx)?)),
+        Expr::Field(f) => {
+            let base = f.base.to_token_stream().to_string();
+            let member = match &f.member { syn::Member::Named(i) => i.to_string(), _ => return Err("tuple field".into()) };
+            let b = match base.as_str() { "self" => "a", "reftextsel" => "c", other => return Err(format!("field access on {}", other)) };
+            match member.as_str() { "begin" => Ok(format!("{}.b", b)), "end" => Ok(format!("{}.e", b)), m => Err(format!("field {}", m)) }
+        }
+        Expr::Unary(u) => match u.op {
+            UnOp::Deref(_) => term(&u.expr, path, cx),
+            UnOp::Not(_) => Ok(format!("(!{})", term(&u.expr, path, cx)?)),
+            _ => Err("unary minus".into()),
+        },
+        Expr::Path(p) => Ok(p.path.segments.last().map(|s| s.ident.to_string()).unwrap_or_default()),
+        Expr::Lit(l) => match &l.lit { syn::Lit::Int(i) => Ok(i.base10_digits().to_string()), syn::Lit::Bool(b) => Ok(b.value.to_string()), o => Err(format!("literal {}", o.to_token_stream())) },
+        Expr::Binary(b) => {
+            let l = term(&b.left, path, cx)?;
+            match b.op {
+                BinOp::And(_) => { let mut p2 = path.clone(); p2.push(prop(&b.left)?); let r = term(&b.right, &p2, cx)?; Ok(format!("({} && {})", l, r)) }
+                BinOp::Or(_) => { let mut p2 = path.clone(); p2.push(format!("¬ ({})", prop(&b.left)?)); let r = term(&b.right, &p2, cx)?; Ok(format!("({} || {})", l, r)) }
+                BinOp::Sub(_) => {
+                    let r = term(&b.right, path, cx)?;
+                    cx.obligations.push((path.join(" → "), r.clone(), l.clone()));
+                    Ok(format!("({} - {})", l, r))
+                }
+                BinOp::Eq(_) => {
+                    let r = term(&b.right, path, cx)?;
+                    if l == "self" && r == "reftextsel" { Ok("decide (a = c)".to_string()) } else { Ok(format!("decide ({} = {})", l, r)) }
+                }
+                BinOp::Ge(_) => Ok(format!("decide ({} ≥ {})", l, term(&b.right, path, cx)?)),
+                BinOp::Gt(_) => Ok(format!("decide ({} > {})", l, term(&b.right, path, cx)?)),
+                BinOp::Le(_) => Ok(format!("decide ({} ≤ {})", l, term(&b.right, path, cx)?)),
+                BinOp::Lt(_) => Ok(format!("decide ({} < {})", l, term(&b.right, path, cx)?)),
+                _ => Err(format!("operator {}", b.op.to_token_stream())),
+            }
+        }
+        Expr::If(i) => {
+            // the whitespace intrinsic
+            if let Expr::Let(l) = &*i.cond {
+                let src = l.expr.to_token_stream().to_string().replace(' ', "");
+                let pre = "resource.text_by_offset(&Offset::simple(";
+                if l.pat.to_token_stream().to_string().replace(' ', "") == "Ok(gap)" && src.starts_with(pre) && src.ends_with("))") {
+                    let then = i.then_branch.to_token_stream().to_string().replace(' ', "");
+                    let els = i.else_branch.as_ref().map(|e| e.1.to_token_stream().to_string().replace(' ', "")).unwrap_or_default();
+                    if then == "{gap.chars().all(|c|c.is_whitespace())}" && els == "{false}" {
+                        // arguments of Offset::simple
+                        if let Expr::MethodCall(mc) = &*l.expr { if let Some(Expr::Reference(r)) = mc.args.first() { if let Expr::Call(c) = &*r.expr { if c.args.len() == 2 {
+                            let x = term(&c.args[0], path, cx)?; let y = term(&c.args[1], path, cx)?;
+                            return Ok(format!("r.gapWs {} {}", atom(&x), atom(&y)));
+                        } } } }
+                    }
+                }
+                return Err(format!("unsupported `if let`: {}", i.cond.to_token_stream()));
+            }
+            let c = term(&i.cond, path, cx)?;
+            let mut pt = path.clone(); pt.push(prop(&i.cond)?);
+            let t = block(&i.then_branch, &pt, cx)?;
+            let mut pe = path.clone(); pe.push(format!("¬ ({})", prop(&i.cond)?));
+            let e = match &i.else_branch { Some((_, e)) => match &**e { Expr::Block(b) => block(&b.block, &pe, cx)?, other => term(other, &pe, cx)? }, None => return Err("if without else".into()) };
+            Ok(format!("(if {} then {} else {})", c, t, e))
+        }
+        Expr::Block(b) => block(&b.block, path, cx),
+        Expr::MethodCall(mc) if mc.args.is_empty() => {
+            let recv = mc.receiver.to_token_stream().to_string();
+            match (recv.as_str(), mc.method.to_string().as_str()) {
+                ("self", "begin") => Ok("b".into()),
+                ("self", "end") => Ok("e".into()),
+                ("self", "textlen") => Ok("len".into()),
+                (v, "unsigned_abs") if !v.contains(' ') => Ok(format!("{}.natAbs", v)),
+                _ => Err(format!("unsupported method call `{}`", mc.to_token_stream())),
+            }
+        }
+        Expr::Call(c) => {
+            let f = c.func.to_token_stream().to_string();
+            if f == "Ok" && c.args.len() == 1 { return Ok(format!("Out.ok {}", atom(&term(&c.args[0], path, cx)?))); }
+            if f == "Err" && c.args.len() == 1 {
+                if let Expr::Call(inner) = &c.args[0] {
+                    let name = inner.func.to_token_stream().to_string().replace(' ', "");
+                    if let Some(v) = name.strip_prefix("StamError::") { return Ok(format!("Out.err \"{}\"", v)); }
+                }
+            }
+            Err(format!("unsupported call `{}`", c.to_token_stream()))
+        }
+        other => Err(format!("unsupported expression `{}`", other.to_token_stream())),
+    }
+}
+
+fn atom(s: &str) -> String { if s.contains(' ') && !s.starts_with('(') { format!("({})", s) } else { s.to_string() } }
+
+fn block(b: &syn::Block, path: &Vec<String>, cx: &mut Ctx) -> Result<String, String> {
+    let mut lets: Vec<(String, String)> = vec![];
+    let mut path = path.clone();
+    for (k, st) in b.stmts.iter().enumerate() {
+        match st {
+            Stmt::Local(l) => {
+                let name = match &l.pat { Pat::Ident(i) => i.ident.to_string(), o => return Err(format!("let pattern {}", o.to_token_stream())) };
+                let init = l.init.as_ref().ok_or("let without initialiser")?;
+                let v = term(&init.expr, &path, cx)?;
+                path.push(format!("{} = {}", name, strip_decide(&v)));
+                cx.binders.push(format!("let:{}", name));
+                lets.push((name, v));
+            }
+            Stmt::Expr(e, None) if k == b.stmts.len() - 1 => {
+                let body = term(e, &path, cx)?;
+                let mut out = body;
+                for (n, v) in lets.iter().rev() { out = format!("(let {} := {}; {})", n, v, out); }
+                return Ok(out);
+            }
+            other => return Err(format!("unsupported statement `{}`", other.to_token_stream())),
+        }
+    }
+    Err("empty block".into())
+}
+
+fn strip_decide(s: &str) -> String { s.to_string() }
+
+/// the same expression as a proposition (for path conditions)
+fn prop(e: &Expr) -> Result<String, String> {
+    let mut cx = Ctx { obligations: vec![], binders: vec![] };
+    match e {
+        Expr::Paren(p) => Ok(format!("({})", prop(&p.expr)?)),
+        Expr::Unary(u) if matches!(u.op, UnOp::Not(_)) => Ok(format!("¬ ({})", prop(&u.expr)?)),
+        Expr::Binary(b) => {
+            match b.op {
+                BinOp::And(_) => Ok(format!("({} ∧ {})", prop(&b.left)?, prop(&b.right)?)),
+                BinOp::Or(_) => Ok(format!("({} ∨ {})", prop(&b.left)?, prop(&b.right)?)),
+                BinOp::Eq(_) => Ok(format!("{} = {}", term(&b.left, &vec![], &mut cx)?, term(&b.right, &vec![], &mut cx)?)),
+                BinOp::Ge(_) => Ok(format!("{} ≥ {}", term(&b.left, &vec![], &mut cx)?, term(&b.right, &vec![], &mut cx)?)),
+                BinOp::Gt(_) => Ok(format!("{} > {}", term(&b.left, &vec![], &mut cx)?, term(&b.right, &vec![], &mut cx)?)),
+                BinOp::Le(_) => Ok(format!("{} ≤ {}", term(&b.left, &vec![], &mut cx)?, term(&b.right, &vec![], &mut cx)?)),
+                BinOp::Lt(_) => Ok(format!("{} < {}", term(&b.left, &vec![], &mut cx)?, term(&b.right, &vec![], &mut cx)?)),
+                _ => Err(format!("operator {} in a condition", b.op.to_token_stream())),
+            }
+        }
+        Expr::Path(p) => Ok(format!("{} = true", p.path.segments.last().map(|s| s.ident.to_string()).unwrap_or_default())),
+        other => Err(format!("unsupported condition `{}`", other.to_token_stream())),
+    }
+}
+
+pub fn generate(parsed: &[(String, String, syn::File)]) -> Result<(String, String, serde_json::Value), String> {
+    // locate impl TestTextSelection for TextSelection :: test
+    let mut found: Option<(&str, &syn::ImplItemFn)> = None;
+    for (file, _, ast) in parsed {
+        for item in &ast.items {
+            if let syn::Item::Impl(im) = item {
+                let tr = im.trait_.as_ref().and_then(|t| t.1.segments.last()).map(|s| s.ident.to_string());
+                let ty = im.self_ty.to_token_stream().to_string();
+                if tr.as_deref() == Some("TestTextSelection") && ty == "TextSelection" {
+                    for ii in &im.items { if let syn::ImplItem::Fn(f) = ii { if f.sig.ident == "test" { found = Some((file.as_str(), f)); } } }
+                }
+            }
+        }
+    }
+    let (file, f) = found.ok_or("kernels: `impl TestTextSelection for TextSelection :: test` not found")?;
+    let m = f.block.stmts.iter().rev().find_map(|s| match s { Stmt::Expr(Expr::Match(m), _) => Some(m), _ => None }).ok_or("kernels: test() does not end in a match")?;
+    if m.expr.to_token_stream().to_string() != "operator" { return Err("kernels: test() does not match on `operator`".into()); }
+    let mut arms_out: Vec<String> = vec![];
+    let mut obligations: Vec<String> = vec![];
+    let mut recursive_ops: Vec<String> = vec![];
+    let mut n_translated = 0;
+    let mut n_obl = 0;
+    for arm in &m.arms {
+        if arm.guard.is_some() { return Err("kernels: match guard in test()".into()); }
+        let body_src = arm.body.to_token_stream().to_string();
+        if matches!(arm.pat, Pat::Wild(_)) {
+            if !body_src.starts_with("unreachable !") { return Err(format!("kernels: catch-all arm of test() is `{}`", body_src)); }
+            continue;
+        }
+        let mut binders = vec![];
+        let pats = pat_to_lean(&arm.pat, &mut binders).map_err(|e| format!("kernels: test(): {}", e))?;
+        if body_src.replace(' ', "").contains("self.test(&operator.toggle_negate(),reftextsel,resource)") {
+            if body_src.replace(' ', "") != "{!self.test(&operator.toggle_negate(),reftextsel,resource)}" { return Err(format!("kernels: unexpected recursive arm `{}`", body_src)); }
+            for p in &pats { if !p.contains(" true") { return Err(format!("kernels: the recursive arm names a non-negated operator: {}", p)); } recursive_ops.push(p.split_whitespace().next().unwrap_or("").trim_start_matches('.').to_string()); }
+            continue;
+        }
+        let mut cx = Ctx { obligations: vec![], binders: binders.clone() };
+        let body = match &*arm.body { Expr::Block(b) => block(&b.block, &vec![], &mut cx), other => term(other, &vec![], &mut cx) }.map_err(|e| format!("kernels: test(), arm {}: {}", pats.join(" | "), e))?;
+        arms_out.push(format!("  | {} => some ({})", pats.join(" | "), body));
+        n_translated += 1;
+        for (cond, small, big) in cx.obligations {
+            n_obl += 1;
+            let lets: Vec<String> = cx.binders.iter().filter_map(|b| b.strip_prefix("let:").map(|s| s.to_string())).collect();
+            let mut vars: Vec<String> = binders.iter().filter(|b| *b != "allow_whitespace").cloned().collect();
+            vars.extend(lets);
+            let bind = if vars.is_empty() { String::new() } else { format!(" ({} : Nat)", vars.join(" ")) };
+            let wsbind = if binders.iter().any(|b| b == "allow_whitespace") { " (allow_whitespace : Bool)" } else { "" };
+            let hyp = if cond.is_empty() { String::new() } else { format!("{} → ", cond) };
+            obligations.push(format!("theorem relPos_sub_safe_{} (a c : TSel){}{} : {}{} ≤ {} := by\n  intros; omega", n_obl, bind, wsbind, hyp, small, big));
+        }
+    }
+    // ---- Cursor resolution: TextSelection::beginaligned_cursor and Text::beginaligned_cursor (default method)
+    let mut cursor_defs: Vec<String> = vec![];
+    let mut cursor_obl: Vec<String> = vec![];
+    let mut cursor_info = vec![];
+    for (what, lean_name, params, wf) in [("TextSelection", "beginAlignedSel", "(b e : Nat)", "(hwf : b ≤ e)"), ("Text", "beginAlignedText", "(len : Nat)", "")] {
+        let mut f: Option<(&str, syn::Block)> = None;
+        for (file, _, ast) in parsed {
+            for item in &ast.items {
+                match item {
+                    syn::Item::Impl(im) if what == "TextSelection" && im.trait_.is_none() && im.self_ty.to_token_stream().to_string() == "TextSelection" => {
+                        for ii in &im.items { if let syn::ImplItem::Fn(g) = ii { if g.sig.ident == "beginaligned_cursor" { f = Some((file.as_str(), g.block.clone())); } } }
+                    }
+                    syn::Item::Trait(tr) if what == "Text" && tr.ident == "Text" => {
+                        for ti in &tr.items { if let syn::TraitItem::Fn(g) = ti { if g.sig.ident == "beginaligned_cursor" { if let Some(b) = &g.default { f = Some((file.as_str(), b.clone())); } } } }
+                    }
+                    _ => {}
+                }
+            }
+        }
+        let (file2, body) = f.ok_or(format!("kernels: {}::beginaligned_cursor not found", what))?;
+        let mut cx = Ctx { obligations: vec![], binders: vec![] };
+        let mut lets: Vec<(String, String)> = vec![];
+        let mut path: Vec<String> = vec![];
+        let mut arms2: Vec<String> = vec![];
+        for st in &body.stmts {
+            match st {
+                Stmt::Local(l) => {
+                    let name = match &l.pat { Pat::Ident(i) => i.ident.to_string(), o => return Err(format!("kernels: {}::beginaligned_cursor: let pattern {}", what, o.to_token_stream())) };
+                    let v = term(&l.init.as_ref().ok_or("let without initialiser")?.expr, &path, &mut cx).map_err(|e| format!("kernels: {}::beginaligned_cursor: {}", what, e))?;
+                    path.push(format!("{} = {}", name, v));
+                    lets.push((name, v));
+                }
+                Stmt::Expr(Expr::Match(m2), _) => {
+                    if m2.expr.to_token_stream().to_string().replace(' ', "") != "*cursor" { return Err(format!("kernels: {}::beginaligned_cursor does not match on *cursor", what)); }
+                    for arm in &m2.arms {
+                        let (ctor, var) = match &arm.pat {
+                            Pat::TupleStruct(ts) if ts.elems.len() == 1 => {
+                                let v = match &ts.elems[0] { Pat::Ident(i) => i.ident.to_string(), o => return Err(format!("kernels: cursor pattern {}", o.to_token_stream())) };
+                                match ts.path.segments.last().map(|x| x.ident.to_string()).as_deref() { Some("BeginAligned") => (".b", v), Some("EndAligned") => (".e", v), o => return Err(format!("kernels: cursor variant {:?}", o)) }
+                            }
+                            o => return Err(format!("kernels: cursor arm pattern {}", o.to_token_stream())),
+                        };
+                        let before = cx.obligations.len();
+                        let bodyl = match &*arm.body { Expr::Block(bk) => block(&bk.block, &path, &mut cx), other => term(other, &path, &mut cx) }.map_err(|e| format!("kernels: {}::beginaligned_cursor: {}", what, e))?;
+                        let mut out = bodyl;
+                        for (n, v) in lets.iter().rev() { out = format!("(let {} := {}; {})", n, v, out); }
+                        arms2.push(format!("  | {} {} => {}", ctor, var, out));
+                        let ty = if ctor == ".b" { "Nat" } else { "Int" };
+                        for k in before..cx.obligations.len() {
+                            let (cond, small, big) = cx.obligations[k].clone();
+                            n_obl += 1;
+                            let letb: String = lets.iter().map(|(n, _)| format!(" ({} : Nat)", n)).collect();
+                            let hyp = if cond.is_empty() { String::new() } else { format!("{} → ", cond) };
+                            cursor_obl.push(format!("theorem {}_sub_safe_{} {} {} ({} : {}){} : {}{} ≤ {} := by\n  intros; omega", lean_name, n_obl, params, wf, var, ty, letb, hyp, small, big));
+                        }
+                    }
+                }
+                other => return Err(format!("kernels: {}::beginaligned_cursor: unsupported statement `{}`", what, other.to_token_stream())),
+            }
+        }
+        // the subtraction in the `let` (evaluated before the match)
+        for (cond, small, big) in cx.obligations.iter().filter(|(c, _, _)| c.is_empty()) {
+            let _ = cond;
+            n_obl += 1;
+            cursor_obl.push(format!("theorem {}_sub_safe_{} {} {} : {} ≤ {} := by\n  omega", lean_name, n_obl, params, wf, small, big));
+        }
+        cursor_defs.push(format!("/-- `{}::beginaligned_cursor` ({}) -/\ndef {} {} : Cursor → Out Nat\n{}", what, file2, lean_name, params, arms2.join("\n")));
+        cursor_info.push(serde_json::json!({"item": format!("{}::beginaligned_cursor", what), "source": file2}));
+    }
+    let mut rec_sorted = recursive_ops.clone(); rec_sorted.sort(); rec_sorted.dedup();
+    let lean = format!(
+"import StamModel.Rel
+/- GENERATED by /verif/translate from {file} (`impl TestTextSelection for TextSelection :: test`). Do not edit. -/
+namespace Stam.Gen
+
+/-- the non-recursive arms of `TextSelection::test`, in source order; `none` where the source recurses through
+`toggle_negate` or is `unreachable!` -/
+def relPos (op : Op) (a c : TSel) (r : Res) : Option Bool :=
+  match op with
+{arms}
+  | _ => none
+
+/-- the operators the recursive arm (`!self.test(&operator.toggle_negate(), …)`) names, all with `negate: true` -/
+def negatedArm : List String := [{rec}]
+
+/-! every subtraction is evaluated only where it cannot underflow -/
+{obl}
+
+end Stam.Gen
+", file = file, arms = arms_out.join("\n"), rec = rec_sorted.iter().map(|s| format!("\"{}\"", s)).collect::<Vec<_>>().join(", "), obl = obligations.join("\n\n"));
+    let lean_cursor = format!(
+"import StamModel.Offset
+/- GENERATED by /verif/translate from `TextSelection::beginaligned_cursor` (textselection.rs) and `Text::beginaligned_cursor` (text.rs). Do not edit. -/
+namespace Stam.Gen
+
+{cursors}
+
+/-! every subtraction is evaluated only where it cannot underflow (`hwf`: a text selection's begin is not past its end) -/
+{obl}
+
+end Stam.Gen
+", cursors = cursor_defs.join("\n\n"), obl = cursor_obl.join("\n\n"));
+    Ok((lean, lean_cursor, serde_json::json!({"source": file, "item": "impl TestTextSelection for TextSelection :: test", "arms_translated": n_translated, "subtraction_obligations": n_obl, "negated_operators": rec_sorted, "cursor_kernels": cursor_info})))
 }
